@@ -70,6 +70,15 @@ func c08Key(r *rand.Rand, id string) (M, M) {
 		in = M{"id": id, "type": typ, "purposes": psI, "b58": "GY4GunSXBPBfhLCzDL7iGmP5dR3sBDCJZkkaGK8VgYQf"}
 		entry = M{"id": id, "type": typ, "purposes": psI, "publicKeyBase58": "GY4GunSXBPBfhLCzDL7iGmP5dR3sBDCJZkkaGK8VgYQf"}
 	}
+	if r.Intn(7) == 0 {
+		// a general key: no purposes at all (a nil or an empty list on the way in, no member in the document)
+		if r.Intn(2) == 0 {
+			delete(in, "purposes")
+		} else {
+			in["purposes"] = []interface{}{}
+		}
+		delete(entry, "purposes")
+	}
 	return in, entry
 }
 
@@ -421,6 +430,7 @@ func (s *c08State) stepUpdate(via string) M {
 		w = randWindow(r, int64(100+s.n+1))
 	}
 	s.sign(signer, headers, opb.UpdateSigned(s.code, signer, delta, w))
+	s.lastPatches, s.lastSigner, s.lastHeaders, s.lastWindow, s.lastAO = patches, signer, headers, w, nil
 	commitment := signer.Commitment(s.code)
 	s.upd = next
 	t, n := s.tn()
@@ -561,14 +571,28 @@ func (s *c08State) spoil(st M, how string) bool {
 			return false
 		}
 	case "wrong-hash-algorithm":
-		if op != "create" {
-			return false
-		}
 		k := opb.NewKey(s.r, opb.P256)
-		if s.r.Intn(2) == 0 {
-			info["rc"] = k.Commitment(other)
-		} else {
+		switch op {
+		case "create":
+			if s.r.Intn(2) == 0 {
+				info["rc"] = k.Commitment(other)
+			} else {
+				info["uc"] = k.Commitment(other)
+			}
+		case "update":
+			// everything else about the request is in order, the signer can sign it
 			info["uc"] = k.Commitment(other)
+			s.sign(s.lastSigner, s.lastHeaders, opb.UpdateSigned(s.code, s.lastSigner, opb.Delta(info["uc"].(string), s.lastPatches), s.lastWindow))
+		case "recover":
+			if s.r.Intn(2) == 0 {
+				info["rc"] = k.Commitment(other)
+			} else {
+				info["uc"] = k.Commitment(other)
+			}
+			s.sign(s.lastSigner, s.lastHeaders, opb.RecoverSigned(s.code, s.lastSigner, opb.Delta(info["uc"].(string), s.lastPatches),
+				info["rc"].(string), s.lastAO, s.lastWindow))
+		default:
+			return false
 		}
 	case "no-signer":
 		if op == "create" {
